@@ -407,9 +407,21 @@ struct Lock {
     completed: BTreeSet<usize>,
     frames_tx: u64,
     wire_log: Vec<u8>,
+    writes_seen: usize,
 }
 
 impl Lock {
+    /// the model, after it has been told about the write calls the implementation has made meanwhile
+    fn m(&mut self) -> &mut ClientModel {
+        if self.model.observed_writes.is_some() {
+            let w = simtokio::serial::writes(RTU_PATH);
+            if let Some(obs) = self.model.observed_writes.as_mut() {
+                obs.extend(w[self.writes_seen.min(w.len())..].iter().copied());
+            }
+            self.writes_seen = w.len();
+        }
+        &mut self.model
+    }
     fn is_rtu(&self) -> bool {
         matches!(self.link, Link::Rtu { .. })
     }
@@ -494,7 +506,7 @@ impl Lock {
     /// compare everything observable since the last action; returns false on violation
     fn compare(&mut self, out: &mut RunOut, action: &str) -> bool {
         // whatever is due at this very instant (zero time-outs, zero delays) has happened in the implementation
-        self.model.advance(0);
+        self.m().advance(0);
         if self.model.order_dependent.is_some() {
             // two things were ready at once in the idle loop and no property says which goes first:
             // nothing after this point can be predicted, the run ends without a verdict on the rest
@@ -845,6 +857,7 @@ fn run_lockstep_inner(cfg: &ScenCfg, out: &mut RunOut, rtu: bool) {
         let rig = start_rtu_client(baud, (retry_min, retry_max), decode, qcap);
         let mut m = ClientModel::new(Transport::Rtu, Retry::new(retry_min, retry_max), None);
         m.impl_port_closes = Some(|| simtokio::serial::closes(RTU_PATH).len());
+        m.observed_writes = Some(std::collections::VecDeque::new());
         m.t35 = t35_ns(baud);
         (rig, m, Link::Rtu { open: false, opens_seen: 0, closes_seen: 0 })
     } else {
@@ -874,6 +887,7 @@ fn run_lockstep_inner(cfg: &ScenCfg, out: &mut RunOut, rtu: bool) {
         completed: BTreeSet::new(),
         frames_tx: 0,
         wire_log: Vec::new(),
+        writes_seen: 0,
     };
     kernel::settle();
     let mut wl_hash = dec_idx as u64 ^ (qcap as u64) << 8 ^ (retry_min) << 16;
@@ -892,7 +906,7 @@ fn run_lockstep_inner(cfg: &ScenCfg, out: &mut RunOut, rtu: bool) {
     if cfg.variant == 1 || chance(2, 3) {
         spawn_cmd(l.rig.channel.as_ref().unwrap(), 0, 0);
         kernel::settle();
-        l.model.submit(Cmd::Enable);
+        l.m().submit(Cmd::Enable);
         if !l.compare(out, "enable") {
             return;
         }
@@ -905,7 +919,7 @@ fn run_lockstep_inner(cfg: &ScenCfg, out: &mut RunOut, rtu: bool) {
             if k == action_idx && l.rig.channel.is_some() && !l.model.is_done() {
                 spawn_cmd(l.rig.channel.as_ref().unwrap(), 2, lvl);
                 kernel::settle();
-                l.model.submit(Cmd::SetDecode);
+                l.m().submit(Cmd::SetDecode);
                 out.probe("decode_change_injected");
                 if !l.compare(out, "set_decode(plan)") {
                     return;
@@ -949,9 +963,9 @@ fn run_lockstep_inner(cfg: &ScenCfg, out: &mut RunOut, rtu: bool) {
                 l.ever_submitted.insert(id);
                 submit(l.rig.channel.as_ref().unwrap(), style, id, &req, unit, timeout, &l.rig.comps);
                 kernel::settle();
-                l.model.submit(Cmd::Request(ReqSpec { id, req, unit, timeout }));
+                l.m().submit(Cmd::Request(ReqSpec { id, req, unit, timeout }));
                 // a time-out of zero is due at the instant of transmission
-                l.model.advance(0);
+                l.m().advance(0);
                 if outstanding {
                     out.probe("submit_behind_outstanding");
                 }
@@ -979,7 +993,7 @@ fn run_lockstep_inner(cfg: &ScenCfg, out: &mut RunOut, rtu: bool) {
                             let cut = 1 + choose(f.len() as u32 - 1) as usize;
                             l.send(&f[..cut]);
                             kernel::settle();
-                            l.model.peer_bytes(&f[..cut]);
+                            l.m().peer_bytes(&f[..cut]);
                             let dl = l.model.outstanding_deadline().unwrap();
                             let now = l.model.now;
                             // (no time-out: pretend the deadline is ten seconds away)
@@ -991,7 +1005,7 @@ fn run_lockstep_inner(cfg: &ScenCfg, out: &mut RunOut, rtu: bool) {
                                 _ => 0,
                             };
                             kernel::advance(dt);
-                            l.model.advance(dt);
+                            l.m().advance(dt);
                             let conn_changed = l.model.effects[l.eff_pos..].iter().any(|e| matches!(e, Effect::ConnClosed(_) | Effect::ConnOpened(_)));
                             if conn_changed || !l.model.is_connected() {
                                 desc = format!("split reply cut={} then +{}ns (connection gone)", cut, dt);
@@ -999,7 +1013,7 @@ fn run_lockstep_inner(cfg: &ScenCfg, out: &mut RunOut, rtu: bool) {
                             } else {
                                 l.send(&f[cut..]);
                                 kernel::settle();
-                                l.model.peer_bytes(&f[cut..]);
+                                l.m().peer_bytes(&f[cut..]);
                                 desc = format!("split reply cut={}/{} pause={}ns (deadline was +{}ns)", cut, f.len(), dt, rem);
                                 l.last_peer_action = "split";
                                 if dt > rem {
@@ -1009,7 +1023,7 @@ fn run_lockstep_inner(cfg: &ScenCfg, out: &mut RunOut, rtu: bool) {
                         } else {
                             l.send(&f);
                             kernel::settle();
-                            l.model.peer_bytes(&f);
+                            l.m().peer_bytes(&f);
                             desc = format!("reply correct tx={}", tx.unwrap());
                             l.last_peer_action = "reply";
                         }
@@ -1027,7 +1041,7 @@ fn run_lockstep_inner(cfg: &ScenCfg, out: &mut RunOut, rtu: bool) {
                         };
                         l.send(&f);
                         kernel::settle();
-                        l.model.peer_bytes(&f);
+                        l.m().peer_bytes(&f);
                         desc = format!("reply variant pdu={}", hex(&p[..p.len().min(16)]));
                         l.last_peer_action = "variant";
                         hash_bytes(&mut wl_hash, &p[..p.len().min(6)]);
@@ -1047,7 +1061,7 @@ fn run_lockstep_inner(cfg: &ScenCfg, out: &mut RunOut, rtu: bool) {
                         let f = l.mk_frame(base.wrapping_sub(k), spec.as_ref().map(|s| s.unit).unwrap_or(1), &p);
                         l.send(&f);
                         kernel::settle();
-                        l.model.peer_bytes(&f);
+                        l.m().peer_bytes(&f);
                         desc = format!("stale frame tx-{}", k);
                         l.last_peer_action = "stale";
                         out.probe("stale_frame");
@@ -1057,7 +1071,7 @@ fn run_lockstep_inner(cfg: &ScenCfg, out: &mut RunOut, rtu: bool) {
                         let f = prev_reply.clone().unwrap_or_else(|| l.mk_frame(l.model.tx_id.wrapping_sub(1), 1, &[3, 2, 0, 0]));
                         l.send(&f);
                         kernel::settle();
-                        l.model.peer_bytes(&f);
+                        l.m().peer_bytes(&f);
                         desc = "duplicate of previous reply".to_string();
                         l.last_peer_action = "duplicate";
                         out.probe("duplicate_frame");
@@ -1089,7 +1103,7 @@ fn run_lockstep_inner(cfg: &ScenCfg, out: &mut RunOut, rtu: bool) {
                         };
                         l.send(&f);
                         kernel::settle();
-                        l.model.peer_bytes(&f);
+                        l.m().peer_bytes(&f);
                         desc = "invalid MBAP header".to_string();
                         l.last_peer_action = "bad_header";
                         out.probe("invalid_header");
@@ -1099,12 +1113,12 @@ fn run_lockstep_inner(cfg: &ScenCfg, out: &mut RunOut, rtu: bool) {
                         if let Link::Tcp { peer, .. } = &l.link {
                             peer.as_ref().unwrap().shutdown_write();
                             kernel::settle();
-                            l.model.peer_eof(None);
+                            l.m().peer_eof(None);
                             desc = "peer closes (EOF)".to_string();
                         } else {
                             simtokio::serial::inject_port_lost(RTU_PATH, std::io::ErrorKind::BrokenPipe);
                             kernel::settle();
-                            l.model.peer_eof(Some("BrokenPipe".into()));
+                            l.m().peer_eof(Some("BrokenPipe".into()));
                             desc = "port lost (BrokenPipe)".to_string();
                         }
                         l.last_peer_action = "eof";
@@ -1117,7 +1131,7 @@ fn run_lockstep_inner(cfg: &ScenCfg, out: &mut RunOut, rtu: bool) {
                             Link::Rtu { .. } => simtokio::serial::inject_port_lost(RTU_PATH, kind),
                         }
                         kernel::settle();
-                        l.model.peer_eof(Some(format!("{:?}", kind)));
+                        l.m().peer_eof(Some(format!("{:?}", kind)));
                         desc = format!("read error {:?}", kind);
                         l.last_peer_action = "read_error";
                     }
@@ -1131,7 +1145,7 @@ fn run_lockstep_inner(cfg: &ScenCfg, out: &mut RunOut, rtu: bool) {
                         // if a command were queued; in lock-step the queue is empty at this point
                         l.send(&f);
                         kernel::settle();
-                        l.model.peer_bytes(&f);
+                        l.m().peer_bytes(&f);
                         desc = format!("unsolicited/future frame tx={}", use_tx);
                         l.last_peer_action = if outstanding { "future" } else { "unsolicited" };
                         out.probe("unsolicited_frame");
@@ -1166,11 +1180,11 @@ fn run_lockstep_inner(cfg: &ScenCfg, out: &mut RunOut, rtu: bool) {
                 if cfg.faults && chance(1, 6) {
                     // process stall: the clock jumps, several deadlines may expire together
                     kernel::jump(dt);
-                    l.model.jump(dt);
+                    l.m().jump(dt);
                     desc = format!("clock jump +{}ns", dt);
                 } else {
                     kernel::advance(dt);
-                    l.model.advance(dt);
+                    l.m().advance(dt);
                     desc = format!("advance +{}ns", dt);
                 }
             }
@@ -1180,13 +1194,13 @@ fn run_lockstep_inner(cfg: &ScenCfg, out: &mut RunOut, rtu: bool) {
                     0 => {
                         spawn_cmd(ch, 0, 0);
                         kernel::settle();
-                        l.model.submit(Cmd::Enable);
+                        l.m().submit(Cmd::Enable);
                         desc = "enable".into();
                     }
                     1 => {
                         spawn_cmd(ch, 1, 0);
                         kernel::settle();
-                        l.model.submit(Cmd::Disable);
+                        l.m().submit(Cmd::Disable);
                         desc = "disable".into();
                         if outstanding {
                             out.probe("disable_behind_outstanding");
@@ -1195,13 +1209,13 @@ fn run_lockstep_inner(cfg: &ScenCfg, out: &mut RunOut, rtu: bool) {
                     2 => {
                         spawn_cmd(ch, 2, choose(36) as u8);
                         kernel::settle();
-                        l.model.submit(Cmd::SetDecode);
+                        l.m().submit(Cmd::SetDecode);
                         desc = "set_decode".into();
                     }
                     3 => {
                         spawn_cmd(ch, 3, 0);
                         kernel::settle();
-                        l.model.submit(Cmd::Shutdown);
+                        l.m().submit(Cmd::Shutdown);
                         desc = "shutdown".into();
                         if outstanding {
                             out.probe("shutdown_behind_outstanding");
@@ -1210,13 +1224,13 @@ fn run_lockstep_inner(cfg: &ScenCfg, out: &mut RunOut, rtu: bool) {
                     4 => {
                         l.rig.channel = None;
                         kernel::settle();
-                        l.model.drop_handles();
+                        l.m().drop_handles();
                         desc = "drop all handles".into();
                     }
                     _ => {
                         l.rig.task.abort();
                         kernel::settle();
-                        l.model.abort();
+                        l.m().abort();
                         desc = "abort task".into();
                         out.probe("task_aborted");
                         kernel::count("fault_cancel_task");
@@ -1299,14 +1313,14 @@ fn run_lockstep_inner(cfg: &ScenCfg, out: &mut RunOut, rtu: bool) {
     if l.rig.channel.is_some() && !l.model.is_done() {
         spawn_cmd(l.rig.channel.as_ref().unwrap(), 3, 0);
         kernel::settle();
-        l.model.submit(Cmd::Shutdown);
+        l.m().submit(Cmd::Shutdown);
         if !l.compare(out, "final shutdown") {
             return;
         }
     }
     // past the largest timeout
     kernel::advance(61_000 * MS);
-    l.model.advance(61_000 * MS);
+    l.m().advance(61_000 * MS);
     if !l.compare(out, "final drain") {
         return;
     }
